@@ -88,6 +88,7 @@ RemoveNode(S, l, n) ==
               !.kids[l] = [x \in (DOMAIN @) \ {n} |-> @[x]],
               !.cells = IF l = LeafLevel(S) THEN [x \in (DOMAIN @) \ {n} |-> @[x]] ELSE @]
 CellTwice(S, a, b) == [S EXCEPT !.cells[b] = @ \cup {CHOOSE x \in S.cells[a] : TRUE}]
+EmptyLeaf(S, c) == [S EXCEPT !.cells[c] = {}]
 DropHierEntry(S, i) == [S EXCEPT !.hier = DelAt(@, i)]
 DropKey(S, l) == [S EXCEPT !.keys = @ \ {l}]
 
@@ -110,6 +111,10 @@ Variants(S) ==
       \cup
       {[edit |-> <<"cell_twice", LeafLevel(S), ab[1], ab[2]>>, tree |-> CellTwice(S, ab[1], ab[2])]
                  : ab \in {x \in AllLeaves(S) \X AllLeaves(S) : x[1] # x[2]}}
+      \cup   \* two edits: one leaf loses its cells (legal by itself), a cell of another leaf is listed twice
+      {[edit |-> <<"empty_then_twice", abc[1], abc[2], abc[3]>>, tree |-> CellTwice(EmptyLeaf(S, abc[3]), abc[1], abc[2])]
+                 : abc \in {x \in AllLeaves(S) \X AllLeaves(S) \X AllLeaves(S) :
+                                x[1] # x[2] /\ x[1] # x[3] /\ x[2] # x[3]}}
       \cup
       {[edit |-> <<"drop_hier_entry", i, 0, 0>>, tree |-> DropHierEntry(S, i)] : i \in 1..Len(S.hier)}
       \cup
@@ -125,7 +130,7 @@ InvVariantsClassified ==
     phase = "build" =>
       \A v \in Variants(T0) :
          LET e == v.edit[1] IN
-            \/ e \in {"remove_link", "add_link", "link_missing", "cell_twice",
+            \/ e \in {"remove_link", "add_link", "link_missing", "cell_twice", "empty_then_twice",
                       "drop_hier_entry", "drop_key"} /\ ~SafeAccepts(v.tree)
             \/ e = "remove_node"
 
